@@ -705,6 +705,15 @@ class DAG(BaseDAG[P, RVDAG]):
 
             input_uxns = [UsageExecNode(to_subdag_id(uxn.id), uxn.key) for uxn in self.input_uxns]
 
+            # a deactivated SubDAG yields None for all its outputs, also for a parameter that is
+            # returned as is: parameters left to their default value are bound like supplied constants
+            if is_active:
+                args = args + tuple(  # type: ignore[assignment]
+                    self.results[uxn.id]
+                    for uxn in self.input_uxns[len(args) :]
+                    if uxn.id in self.results
+                )
+
             # provided args to the subdag
             arg_uxns = construct_subdag_arg_uxns(
                 *args, to_subdag_id=to_subdag_id, qualname=self.qualname
